@@ -262,8 +262,8 @@ def bounds_layout(u: Unit):
                 else:
                     los, his = [z3.Real(f"lo{j}")] * n, [z3.Real(f"hi{j}")] * n
                     b = st.alloc(HArr((2,), VDtype("float64"), lambda ix, los=los, his=his: VFloat(z3.If(z_int(ix[0]) == 0, los[0], his[0]))))
-                for t in los + his:
-                    st.assume(t > 0)
+                for t in los + his:         # a logarithmic boundary is a positive number; a linear one is ANY number (0 and negatives included)
+                    st.assume(z3.Implies(lg, t > 0))
                 vs.append(st.alloc(HObj(pci, {"_key": VStr(f"a.b.k{j}"), "_values": values, "_boundaries": b, "_logarithmic": VBool(lg), "_enabled": VBool(True)})))
                 for i in range(n):
                     exp.append((lg, los[i], his[i]))
